@@ -35,7 +35,8 @@ LEVEL_TEXT = ("2-4 real send_message callers share one (read, write) pair on a v
               ' Also per-request streams registered up front or in the same loop turn.'
               ' Also, on the per-request API, answers whose payload is false in Python ({} for a ping, [], 0, "", false) and callers whose ids are an integer and the string spelling it.'
               " Also unrelated notifications that mention callers' ids (the peer's notifications/cancelled, a progress token equal to an id) in both tiers."
-              ' Also per-request callers that wait in 4 ms slices until their deadline.')
+              ' Also per-request callers that wait in 4 ms slices until their deadline.'
+              " Also a caller outstanding for 65 s when others register (the process's monotonic clock tied to the loop's virtual time).")
 LEVEL_NOTE = ("Trusted: virtual-time loop, anyio memory streams' FIFO waiter order, the oracle. The loss of "
               "out-of-order answers (consumed and discarded by another waiter) is a recorded known finding; "
               "every other loss mechanism and any cross-talk is a violation.")
@@ -485,6 +486,24 @@ def exec_stdio_routed_case(ctx, case: Dict[str, Any]) -> None:
 
         async def caller(name, client, i):
             rid: Any = id_of(i)
+            if case.get("long_wait"):
+                # caller 0 has been waiting for more than a minute (its own deadline is two minutes) when the others start;
+                # the server answers all of them once it has all the requests
+                if i > 0:
+                    await asyncio.sleep(65.0 + i)
+                recv = client.new_request_stream(key_of(rid))
+                await client.send_json(create_request("tools/call", {"tag": f"{name}-caller-{i}"}, id=rid))
+                key = f"{name}-{i}"
+                with anyio.move_on_after(120.0) as scope:
+                    try:
+                        outcomes[key] = ("got", await recv.receive())
+                    except BaseException as e:  # noqa
+                        if isinstance(e, (KeyboardInterrupt, SystemExit, asyncio.CancelledError)):
+                            raise
+                        outcomes[key] = ("raise", e)
+                if scope.cancelled_caught:
+                    outcomes[key] = ("nothing", None)
+                return
             for rnd in range(rounds):
                 if case.get("fresh_ids"):
                     rid = f"{i + 1}.{rnd}"
@@ -559,15 +578,25 @@ def exec_stdio_routed_case(ctx, case: Dict[str, Any]) -> None:
                 await asyncio.gather(*tasks)
                 d.cancel()
 
-        with OpenProcessPatch(factory):
-            go = asyncio.Event()
-            conn_tasks = []
-            for c in range(conns):
-                started = asyncio.Event()
-                conn_tasks.append(asyncio.create_task(connection("AB"[c], started, go), name=f"conn-{c}"))
-                await started.wait()
-            go.set()
-            await asyncio.gather(*conn_tasks)
+        import time as _time
+        _orig_mono = _time.monotonic
+        if case.get("long_wait"):
+            # whatever the library measures with the process's monotonic clock follows the (virtual) time of the loop
+            _loop = asyncio.get_running_loop()
+            _base = _orig_mono()
+            _time.monotonic = lambda: _base + _loop.time()
+        try:
+            with OpenProcessPatch(factory):
+                go = asyncio.Event()
+                conn_tasks = []
+                for c in range(conns):
+                    started = asyncio.Event()
+                    conn_tasks.append(asyncio.create_task(connection("AB"[c], started, go), name=f"conn-{c}"))
+                    await started.wait()
+                go.set()
+                await asyncio.gather(*conn_tasks)
+        finally:
+            _time.monotonic = _orig_mono
         return outcomes
 
     try:
@@ -699,6 +728,10 @@ def run(ctx):
             case = {"n": n, "perm": list(perm), "connections": 1, "ids": "str", "wait": "slices", "via": "stdio_routed"}
             if ctx.mine():
                 exec_stdio_routed_case(ctx, case)
+    for n in (2, 3):
+        case = {"n": n, "perm": list(range(n))[::-1], "connections": 1, "ids": "str", "long_wait": True, "via": "stdio_routed"}
+        if ctx.mine():
+            exec_stdio_routed_case(ctx, case)
     for payload in ({}, [], 0, "", False, 0.0):
         for n, perm in ((1, [0]), (2, [0, 1]), (3, [2, 0, 1])):
             case = {"n": n, "perm": perm, "connections": 1, "ids": ("str", "int")[n % 2], "payload": payload, "via": "stdio_routed"}
